@@ -53,6 +53,7 @@ type NodeRT struct {
 	Pub  kcache.Controller
 	FPub kcache.FilterController
 	Mon  kcache.Monitor
+	MonSub kcache.Subscription
 
 	Reader      string // eager | slow | stalled | none
 	SlowEvery   time.Duration
@@ -145,10 +146,69 @@ func (h *H) Start() {
 	h.Ctrl = c
 }
 
+// Overflow detection is semantic, not textual: detsim counts every value
+// dropped by a non-blocking send on a full buffer (anywhere in the library)
+// and knows on which channel.  Drops on a subscriber's own Events() buffer are
+// attributed to that node; all other drops happened inside the pipeline
+// ("hidden": watcher / session / feeding subscriptions / typed layers).
+func (h *H) visibleDrops() int {
+	n := 0
+	for _, x := range h.Nodes {
+		if x.Sub != nil && x.Mon == nil {
+			n += detsim.DropsOn(x.Sub.Events())
+		}
+		if x.MonSub != nil {
+			n += detsim.DropsOn(x.MonSub.Events())
+		}
+	}
+	return n
+}
+
+// recPub records the subscription a monitor creates for itself.
+type recPub struct {
+	kcache.Publisher
+	last kcache.Subscription
+}
+
+func (r *recPub) Subscribe() (kcache.Subscription, error) {
+	s, err := r.Publisher.Subscribe()
+	if err == nil {
+		r.last = s
+	}
+	return s, err
+}
+
+func (h *H) hiddenDrops() int { return detsim.TotalDrops() - h.visibleDrops() }
+
+// Overflowed: event streams may legitimately have gaps for everybody (strict
+// replay and exact sequences are off).  In per-node mode (C10) only hidden
+// drops count; a subscriber's own overflow concerns that subscriber alone.
+func (h *H) Overflowed() bool {
+	if h.Overflow || h.hiddenDrops() > 0 {
+		return true
+	}
+	return !h.PerNodeOverflow && detsim.TotalDrops() > 0
+}
+
+// WatchLossPossible: something was dropped before it reached the controller
+// cache's consumers in order (the cache may be behind until the next relist).
+func (h *H) WatchLossPossible() bool { return h.WatchOverflow || h.hiddenDrops() > 0 }
+
+// Lost: this subscriber's own buffer overflowed at some point.
+func (n *NodeRT) Lost() bool {
+	if n.MonSub != nil {
+		return detsim.DropsOn(n.MonSub.Events()) > 0
+	}
+	return n.Sub != nil && detsim.DropsOn(n.Sub.Events()) > 0
+}
+
 // Invariant is evaluated by the scheduler after every step (no channel
 // operations allowed here).  It tracks which subscriber buffers were ever full
 // and flags events that become visible before Ready().
 func (h *H) Invariant() (string, string) {
+	if h.ExpectNoOverflow && detsim.TotalDrops() > 0 {
+		return "unexpected-overflow", "a non-blocking hand-off dropped an event although every consumer keeps its backlog far below the buffer size"
+	}
 	for _, n := range h.Nodes {
 		if n.Sub == nil || n.Mon != nil {
 			continue
@@ -286,7 +346,9 @@ func (h *H) MakeNode(parent *NodeRT, kind string, f FilterSpec, reader string) (
 		n.Deferred = true
 		n.Filter = FilterSpec{Op: "all"}
 	case "monitor":
-		n.Mon, err = kcache.NewMonitor(pub, h.handler(n))
+		rp := &recPub{Publisher: pub}
+		n.Mon, err = kcache.NewMonitor(rp, h.handler(n))
+		n.MonSub = rp.last // the monitor's private subscription (to attribute buffer overflows to it)
 	default:
 		panic("world: unknown node kind " + kind)
 	}
@@ -369,7 +431,7 @@ func (h *H) record(n *NodeRT, ev kcache.Event) {
 	if v := spec.Ver(); v > h.MaxSeenVer && re.Type != "delete" {
 		h.MaxSeenVer = v
 	}
-	if h.Overflow || n.WasFull {
+	if h.Overflowed() || n.Lost() {
 		n.mirrorDead = true
 		n.Mirror = nil // gaps are legitimate from now on; strict replay is meaningless
 	}
@@ -601,7 +663,7 @@ func (h *H) CheckTree(prefix string) {
 		}
 		ready := detsim.IsClosed(h.ReadyOf(n))
 		_, pspecs, pok := ListIDs(h.CacheOf(n.Parent))
-		if pok && ready && !(h.Overflow && n.Filtered()) {
+		if pok && ready && !(h.Overflowed() && n.Filtered()) {
 			var want []string
 			if n.Filtered() {
 				want = SpecIDs(FilterSpecs(pspecs, n.Filter.Pred()))
@@ -613,7 +675,7 @@ func (h *H) CheckTree(prefix string) {
 					n.Name(), n.Filter.String(), got, want, SpecIDs(pspecs))
 			}
 		}
-		if n.Mirror != nil && !h.Overflow && !n.WasFull && !h.upstreamFull(n) && (n.Reader == "eager" || n.Reader == "slow") && len(n.Sub.Events()) == 0 {
+		if n.Mirror != nil && !h.Overflowed() && !n.Lost() && !h.upstreamFull(n) && (n.Reader == "eager" || n.Reader == "slow") && len(n.Sub.Events()) == 0 {
 			m := SpecIDs(n.Mirror.List())
 			if !SameIDs(m, got) {
 				detsim.Fail(prefix+"mirror-diverged", "%s: replaying its events does not give its cache\n  mirror: %v\n  cache : %v\n  events: %s", n.Name(), m, got, sigs(n.Events))
@@ -633,7 +695,7 @@ func (h *H) SeedMirrors() {
 		if n.Sub == nil || n.Mon != nil || n.Mirror != nil || n.mirrorDead || (n.Reader != "eager" && n.Reader != "slow") {
 			continue
 		}
-		if h.Overflow || n.WasFull || h.upstreamFull(n) || len(n.Sub.Events()) != 0 {
+		if h.Overflowed() || n.Lost() || h.upstreamFull(n) || len(n.Sub.Events()) != 0 {
 			continue
 		}
 		if !detsim.IsClosed(n.Sub.Ready()) || detsim.IsClosed(n.Sub.Done()) {
@@ -650,7 +712,7 @@ func (h *H) SeedMirrors() {
 // upstreamFull: some subscription between n and the root had a full buffer.
 func (h *H) upstreamFull(n *NodeRT) bool {
 	for p := n.Parent; p != nil; p = p.Parent {
-		if p.WasFull || p.FeedFull {
+		if p.Lost() || p.FeedFull {
 			return true
 		}
 	}
